@@ -6,7 +6,7 @@
 // predicates, start/end, and iteration (for-in over the literal, through PrimitiveIterable, over a run-time range)
 // against a model computed from the bounds.
 //
-// Part B (iterables): every element list of length 0–4 over {1, 2, 3, −1} × every iterable kind the language offers
+// Part B (iterables): every element list of length 0–3 (thorough 0–5) over {1, 2, 3, −1} × every iterable kind the language offers
 // for it × every operation of the Std::Iterable interface × arguments; oracle = the same operation on the Go slice
 // (multiset / membership comparison where the iteration order of a hash collection is unspecified). Behaviour the
 // interface does not document (negative n, reduce of an empty iterable) must equal what an ArrayList holding the same
@@ -181,13 +181,17 @@ func charBV(c rune) bv {
 	return bv{s, s, new(big.Rat).SetInt64(int64(c))}
 }
 
-func families() []family {
+func families(thorough bool) []family {
 	var fs []family
 	f := family{name: "Int", typ: "::Std::Int", discrete: true, elem: func(n *big.Int) string { return n.String() }}
-	for i := int64(-2); i <= 3; i++ {
+	w := int64(0)
+	if thorough {
+		w = 1
+	}
+	for i := -2 - w; i <= 3+w; i++ {
 		f.bounds = append(f.bounds, intBV(i))
 	}
-	for i := int64(-3); i <= 4; i++ {
+	for i := -3 - w; i <= 4+w; i++ {
 		f.xs = append(f.xs, intBV(i))
 	}
 	fs = append(fs, f)
@@ -286,7 +290,7 @@ func boolStr(b bool) string {
 }
 
 func rangeCases(c *engine.Ctx) {
-	for _, f := range families() {
+	for _, f := range families(c.Thorough) {
 		f := f
 		for ki := range rkinds {
 			k := &rkinds[ki]
@@ -531,10 +535,10 @@ type ikind struct {
 	class     func() *value.Class // run-time class of the iterable the operations are called on
 	header    string              // what the headers say
 	ordered   bool
-	pairs     bool // elements are Pair(k, k*10)
-	distinct  bool // only element lists without duplicates
-	consec    int  // 0: any list; 1: consecutive ascending lists only (ranges)
-	nonempty  bool // generators always yield their return value
+	pairs     bool                             // elements are Pair(k, k*10)
+	distinct  bool                             // only element lists without duplicates
+	consec    int                              // 0: any list; 1: consecutive ascending lists only (ranges)
+	nonempty  bool                             // generators always yield their return value
 	construct func(l []int, gen string) string // statements binding `it`
 }
 
@@ -555,15 +559,21 @@ func pairsLit(l []int) string {
 
 var ikinds = []ikind{
 	{name: "list", class: func() *value.Class { return value.ArrayListClass }, header: "ArrayList includes List → Collection::Base → Iterable::FiniteBase", ordered: true,
-		construct: func(l []int, _ string) string { return "  var it: ::Std::ArrayList[::Std::Int] = [" + intsLit(l) + "]\n" }},
+		construct: func(l []int, _ string) string {
+			return "  var it: ::Std::ArrayList[::Std::Int] = [" + intsLit(l) + "]\n"
+		}},
 	{name: "list-as-Iterable", class: func() *value.Class { return value.ArrayListClass }, header: "ArrayList typed as the Iterable interface (dynamic dispatch)", ordered: true,
 		construct: func(l []int, _ string) string {
 			return "  var src: ::Std::ArrayList[::Std::Int] = [" + intsLit(l) + "]\n  var it: ::Std::Iterable[::Std::Int] = src\n"
 		}},
 	{name: "tuple", class: func() *value.Class { return value.ArrayTupleClass }, header: "ArrayTuple includes Tuple → ImmutableCollection::Base → Iterable::FiniteBase", ordered: true,
-		construct: func(l []int, _ string) string { return "  var it: ::Std::ArrayTuple[::Std::Int] = %[" + intsLit(l) + "]\n" }},
+		construct: func(l []int, _ string) string {
+			return "  var it: ::Std::ArrayTuple[::Std::Int] = %[" + intsLit(l) + "]\n"
+		}},
 	{name: "set", class: func() *value.Class { return value.HashSetClass }, header: "HashSet includes Set → Collection::Base → Iterable::FiniteBase", distinct: true,
-		construct: func(l []int, _ string) string { return "  var it: ::Std::HashSet[::Std::Int] = ^[" + intsLit(l) + "]\n" }},
+		construct: func(l []int, _ string) string {
+			return "  var it: ::Std::HashSet[::Std::Int] = ^[" + intsLit(l) + "]\n"
+		}},
 	{name: "map", class: func() *value.Class { return value.HashMapClass }, header: "HashMap includes Map → Record → Iterable::Base[Pair]", distinct: true, pairs: true,
 		construct: func(l []int, _ string) string {
 			return "  var it: ::Std::HashMap[::Std::Int, ::Std::Int] = {" + pairsLit(l) + "}\n"
@@ -822,6 +832,12 @@ func iops() []iop {
 				return exp{scalar: "-1"}
 			},
 			weak: func(l []int, g obs, _ bool) string {
+				if len(sel(l, true)) == 0 {
+					if g.scalar != "-1" {
+						return "expected -1 when no element matches"
+					}
+					return ""
+				}
 				var i int
 				if _, err := fmt.Sscanf(g.scalar, "%d", &i); err != nil || i < 0 || i >= len(l) {
 					return fmt.Sprintf("expected an index in 0..%d", len(l)-1)
@@ -1193,7 +1209,7 @@ func iterableCases(c *engine.Ctx) {
 	}
 	maxLen := 3
 	if c.Thorough {
-		maxLen = 4
+		maxLen = 5
 	}
 	for _, l := range lists(maxLen) {
 		l := l
@@ -1333,9 +1349,9 @@ func main() {
 	engine.Main(&engine.Spec{
 		Prop:  "C23",
 		Level: "exploration",
-		Rule: "ranges: 8 range kinds × bound families {Int −2…3 (all 36 ordered pairs), Float {−0.5, 0, 1.5} (9 pairs), Int pair 2^63−2 / 2^63+1, Char a / c} × probes {−3…4; −3.0…4.0 step 0.5; six values around 2^63; A a b c d} " +
+		Rule: "ranges: 8 range kinds × bound families {Int −2…3 (all 36 ordered pairs; thorough −3…4, 64 pairs, probes −4…5), Float {−0.5, 0, 1.5} (9 pairs), Int pair 2^63−2 / 2^63+1, Char a / c} × probes {−3…4; −3.0…4.0 step 0.5; six values around 2^63; A a b c d} " +
 			"× forms {constant-folded literal, range built at run time, contains through the Range mixin, switch range pattern, for-in over the literal} × observations {contains, is_left/right_open/closed, start, end, first 8 elements of the iteration}; oracle from the bounds. " +
-			"iterables: every list of length 0–3 (thorough: 0–4) over {1, 2, 3, −1} × kinds {ArrayList, ArrayList typed as Iterable, ArrayTuple, HashSet, HashMap, HashRecord (distinct lists; pairs k => 10k), ArrayList iterator, closed/open Int range iterators (consecutive lists), generator (non-empty lists), closed prefilled Channel} " +
+			"iterables: every list of length 0–3 (thorough: 0–5) over {1, 2, 3, −1} × kinds {ArrayList, ArrayList typed as Iterable, ArrayTuple, HashSet, HashMap, HashRecord (distinct lists; pairs k => 10k), ArrayList iterator, closed/open Int range iterators (consecutive lists), generator (non-empty lists), closed prefilled Channel} " +
 			"× the 27 operations of Std::Iterable with n ∈ {−1, 0, 1, 2, 5}, predicates {> 0, == 2, always, never}, probes {1, 2, −1, 5}; oracle = the operation on the Go slice (multiset / admissibility check for hash collections), " +
 			"documented errors (NotFoundError, nil for try_*, −1 for index_of) asserted, undocumented cases (negative n, reduce of an empty iterable) compared with the ArrayList holding the same elements; operations the run-time class lacks are reported once per kind and left out. " +
 			"A case is non-trivial when the iterable is non-empty (iterables) / always (ranges)",
